@@ -12,10 +12,14 @@ use std::time::Duration;
 /// The custom easings are four distinct **zero-sized** types: a `Box<dyn EasingFunction>` of a ZST does not allocate,
 /// so all of them live at the same (dangling) address — anything that identifies an easing by the address of its
 /// function object confuses them.  `Cust(k)` is the same menu called directly (op `easeraw`).
-#[derive(Clone, Debug)] pub struct C0;
-#[derive(Clone, Debug)] pub struct C1;
-#[derive(Clone, Debug)] pub struct C2;
-#[derive(Clone, Debug)] pub struct C3;
+/// They also all print the same under `Debug` (nothing says a Debug string identifies a function), so anything that
+/// compares easings by their Debug output confuses them as well.
+#[derive(Clone)] pub struct C0;
+#[derive(Clone)] pub struct C1;
+#[derive(Clone)] pub struct C2;
+#[derive(Clone)] pub struct C3;
+macro_rules! same_debug { ($($t:ty),*) => { $( impl std::fmt::Debug for $t { fn fmt(&self, f: &mut std::fmt::Formatter<'_>) -> std::fmt::Result { f.write_str("CustomEasing") } } )* } }
+same_debug!(C0, C1, C2, C3);
 fn cust(k: u32, x: f32) -> f32 {
     match k {
         0 => x * x,
